@@ -35,6 +35,7 @@ func C05(p *load.Prog, r *report.Report) {
 		r.Undecided("C05.model", "coordinate roles", "", err.Error())
 		return
 	}
+	m.stateGuard(r, "C05", true, false)
 	P1, P2 := symPt("1"), symPt("2")
 	if fn := p.Method(p.Root, "Element", "Equal"); fn != nil {
 		for _, alias := range []bool{false, true} {
